@@ -20,8 +20,8 @@ theorem actionOutcome_plain (cx : Ctx) (i : Nat) (a : AMode) (act : ActionSpec) 
   · simp [ht, hv]
   · simp
 
-theorem afterBody_plain_res (cx : Ctx) (i : Nat) (a : AMode) (act : ActionSpec) (saved : Cursor) (r : Ret)
-    (h : PlainAct act) : (afterBody cx i a act saved r).res = r.res := by
+theorem afterBody_plain_res (cx : Ctx) (i : Nat) (a : AMode) (act : ActionSpec) (sd : Nat) (saved : Cursor) (r : Ret)
+    (h : PlainAct act) : (afterBody cx i a act sd saved r).res = r.res := by
   unfold afterBody
   split
   · rfl
@@ -65,7 +65,7 @@ theorem nodeCall_sem (k i : Nat) (a : AMode) (m : RMode) (env : Env) (st : St) (
       refine ⟨o, ?_, .ref (Gof_of hn) s⟩
       rw [absO_guard, ← ho]
       apply absO_congr
-      · simp [afterBody_plain_res _ _ _ _ _ _ (wf.plain env i nd hn)]
+      · simp [afterBody_plain_res _ _ _ _ _ _ _ (wf.plain env i nd hn)]
       · simp
 
 end
@@ -143,7 +143,7 @@ theorem run_mustlike_nofail (cx : Ctx) (wf : WFT cx) :
       obtain ⟨r0, h0, rfl⟩ := h1
       have := hbody _ _ h0
       simp only [guardRestore_res]
-      rw [afterBody_plain_res _ _ _ _ _ _ (wf.plain env j nd hn)]
+      rw [afterBody_plain_res _ _ _ _ _ _ _ (wf.plain env j nd hn)]
       exact this
 
 /-- **Refinement.** Every invocation of the model evaluates `ref i` as the formalism prescribes. -/
